@@ -193,28 +193,85 @@ def sgp4beta_case(X, Y):
                 desc=f"Sgp4Beta.propagate: minutes since the TLE epoch are the same for one instant labelled {X} or {Y}")
 
 
+class _StopTle(Exception):
+    pass
+
+
 def tle_epoch_case(X, Y):
-    """Tle.from_orbit: the datetime all epoch fields are formatted from (statement `date = ...` of the source)"""
+    """Tle.from_orbit: the real method runs up to the first checksum; every quantity it formats out of the epoch (year token, day of
+    year, hour, minute, second, microsecond) is an uninterpreted function of the datetime value it was read from -- all of them
+    must be read from the same clock whatever the epoch's label"""
+    def observe(env, m, date):
+        tle = importlib.import_module("beyond.io.tle")
+        formatted = []
+        n0 = len(TOKENS)
+
+        def tok_int(x, *a):
+            mt = re.fullmatch("\ue000(\\d+)\\|(.*)\ue001", x) if isinstance(x, str) else None
+            if mt:
+                t, _ = TOKENS[int(mt.group(1))]
+                return SF(uf("strf_" + re.sub(r"\W", "_", mt.group(2)), t))
+            return int(x, *a)
+        for nm in ("hour", "minute", "second", "microsecond"):
+            setattr(SDT, nm, property(lambda self, nm=nm: SF(uf("dt_" + nm, self.t))))
+        old_fmt = SF.__format__
+
+        def sf_format(self, spec):
+            formatted.append(self.r)
+            return "0" * 12
+        SF.__format__ = sf_format
+        tle.int = tok_int
+
+        class O(list):
+            name, norad_id, cospar_id = "X", 25544, "1998-067A"
+            ndot, ndotdot, bstar, element_nb, revolutions = 0.0, 0.0, 0.0, 1, 1
+
+            def copy(self, **kw):
+                return self
+        o = O([0.9, 4.3, 0.0006703, 2.2, 5.6, 0.00114])
+        o.date = date
+
+        def stop(line):
+            raise _StopTle()
+        saved = tle.Tle._checksum
+        tle.Tle._checksum = classmethod(lambda cls, line: stop(line))
+        try:
+            try:
+                tle.Tle.from_orbit(o)
+            except _StopTle:
+                pass
+        finally:
+            tle.Tle._checksum = saved
+            SF.__format__ = old_fmt
+            del tle.int
+        return [t for t, _ in TOKENS[n0:]] + formatted
+
     def run(env, v):
-        stmts = _ast_stmts("beyond.io.tle", "Tle", "from_orbit", ("date",))[:1]
-        code = compile(ast.Module(body=stmts, type_ignores=[]), "<Tle.from_orbit>", "exec")
         if env.symbolic:
             m = install(env)
             a, b = two(env, m, v, X, Y)
-        else:
-            a, b = cdates(v, X, Y)
-        res = []
-        for date in (a, b):
-            ns = {"orbit": types.SimpleNamespace(date=date)}
-            exec(code, {}, ns)
-            dt = ns["date"]
-            res.append(dt.t if env.symbolic else (dt - __import__("datetime").datetime(1858, 11, 17)).total_seconds())
-        return {"epoch_clock": res[0] - res[1]}
+            oa, ob = observe(env, m, a), observe(env, m, b)
+            assert len(oa) == len(ob) and len(oa) >= 2, (len(oa), len(ob))
+            return {"epoch_fields": [p - q for p, q in zip(oa, ob)]}
+        from beyond.io.tle import Tle
+        base = Tle(c12_L1 + "\n" + c12_L2).orbit()
+        from beyond.dates import Date
+        lx, ly = labels_for_replay(X, Y)
+        errs = []
+        for sec in (float(v["s"]), 10.0, 86390.0):              # incl. instants close to a midnight of either clock
+            a = Date(54730, sec, scale=lx)
+            b = a.change_scale(ly)
+            oa, ob = base.copy(), base.copy()
+            oa.date, ob.date = a, b
+            ta, tb = Tle.from_orbit(oa), Tle.from_orbit(ob)
+            errs.append(abs((ta.epoch - tb.epoch).total_seconds()))
+        return {"epoch_fields": [max(errs)] * 8}
 
     def ref(env, v, out):
-        return {"epoch_clock": 0}
-    return Case(f"tle_epoch/{X}-{Y}", INS, run, ref, pre=pre, timeout=60, maxpaths=50, tol=0, abs_tol=1e-6, signature="Tle.from_orbit:label-clock",
-                desc=f"Tle.from_orbit formats the epoch fields from the same clock reading for one epoch labelled {X} or {Y}")
+        return {"epoch_fields": [0] * len(out["epoch_fields"])}
+    return Case(f"tle_epoch/{X}-{Y}", INS, run, ref, pre=pre, timeout=60, maxpaths=50, tol=0, abs_tol=1e-4, signature="Tle.from_orbit:label-clock",
+                desc=f"Tle.from_orbit reads every epoch field (year, day of year, hour, minute, second, microsecond) from the same clock "
+                     f"reading for one epoch labelled {X} or {Y}")
 
 
 def kepler_case(which, X, Y):
